@@ -3,7 +3,7 @@
    check_case: the model computes what the implementation (and the library) did.
    spec_case : what the implementation did satisfies the specification, judged on the
                observations alone (no model function on the judged side). *)
-From Sdns Require Export Common.Base Gen.C05 C05.Model C05.Edns.
+From Sdns Require Export Common.Base Gen.C05 C05.Model C05.Edns C05.Chase.
 Open Scope N_scope.
 
 (* what dns.Msg.Unpack did on the packet: error, or the number of decoded questions and
@@ -31,7 +31,20 @@ Inductive case :=
   (* the octets edns.ResponseWriter.WriteWire put behind the body it was handed (the reply's tail),
      the header counts it left, and the OPT the library decodes from that reply *)
 | CaseOptBytes (w : ewriter) (srvc : list N) (ede : option (N * list N)) (arcount_before arcount_after : N)
-               (obs_wire : option optrec) (tail : list N).
+               (obs_wire : option optrec) (tail : list N)
+  (* alias composition on real cache state.  Names are numbers (one per folded name).  [wview]: the chain
+     the question would walk on the wire-path server, read entry by entry through the overlay hook
+     cache.VC05ChaseView (hop 0 = the alias entry, the others keyed by the name they were looked up under);
+     [code_segs] / [code_comp]: what Cache.collectWireChase filled (names asked, in order) and the records
+     and AD of composeWireChase's reply on that same state; [wire_reply]: answers of the reply the byte path
+     really sent when the composer served it; [mview] the same view on the decoded-path server and
+     [msg_reply] (rcode, answers) of the reply it really sent (None: nothing comparable was written) *)
+| CaseChase (qtype : N) (cd : bool) (qname : N)
+            (wview : option (centry N * list (N * centry N)))
+            (code_segs : option (list N)) (code_comp : option (list (rrec N) * bool))
+            (wire_reply : option (list (rrec N)))
+            (mview : option (centry N * list (N * centry N)))
+            (msg_reply : option (N * list (rrec N))).
 
 Fixpoint bytes_eqb (a b : list N) : bool :=
   match a, b with
@@ -93,6 +106,29 @@ Definition down_eqb (a b : option (list eopt)) : bool :=
   | _, _ => false
   end.
 
+Definition rrec_eqb (a b : rrec N) : bool :=
+  (r_type N a =? r_type N b) && (r_target N a =? r_target N b) && (r_rest N a =? r_rest N b) && (r_ttl N a =? r_ttl N b).
+Fixpoint rrecs_eqb (a b : list (rrec N)) : bool :=
+  match a, b with
+  | [], [] => true
+  | x :: xs, y :: ys => rrec_eqb x y && rrecs_eqb xs ys
+  | _, _ => false
+  end.
+Definition chase_lookup (store : list (N * centry N)) (n : N) : option (centry N) :=
+  match find (fun p => fst p =? n) store with Some p => Some (snd p) | None => None end.
+Definition opt_names_eqb (a b : option (list N)) : bool :=
+  match a, b with
+  | None, None => true
+  | Some x, Some y => bytes_eqb x y
+  | _, _ => false
+  end.
+
+(* the model's walk / composition / decoded chase on a view *)
+Definition model_collect (qtype qname : N) (v : centry N * list (N * centry N)) :=
+  collect N (fun n => n) N.eqb (chase_lookup (snd v)) qtype 10 qname qname (fst v) [].
+Definition model_msg (qtype : N) (cd : bool) (qname : N) (v : centry N * list (N * centry N)) :=
+  msg_hit N (fun n => n) N.eqb (chase_lookup (snd v)) qtype cd (fun _ _ => false) 11 0 qname (fst v).
+
 Definition check_case (c : case) : bool :=
   match c with
   | CasePW raw pw lib =>
@@ -118,6 +154,30 @@ Definition check_case (c : case) : bool :=
       (* appendWireOPT composed from the translated internal/wire builders, run on an empty body *)
       if ew_noedns w then (match tail with [] => true | _ => false end) && (ar1 =? ar0)
       else bytes_eqb (append_wire_opt (fun _ => srvc) w ede []) tail && (ar1 =? ar0 + 1)
+  | CaseChase qtype cd qname wview code_segs code_comp _ mview msg_reply =>
+      (* Chase.collect = collectWireChase (same segments or both decline), Chase.compose_* = composeWireChase *)
+      match wview with
+      | Some v =>
+          let r := model_collect qtype qname v in
+          opt_names_eqb (option_map (map fst) r) code_segs &&
+          match r, code_comp with
+          | Some segs, Some (recs, ad) =>
+              rrecs_eqb (compose_answers N (map snd segs)) recs && Bool.eqb (compose_ad N cd (map snd segs)) ad
+          | Some _, None => false
+          | None, _ => true
+          end
+      | None => true
+      end &&
+      (* Chase.msg_hit = what the decoded path (handleCacheHit -> ToMsg -> additionalAnswer) answered *)
+      match mview, msg_reply with
+      | Some v, Some (rc', ans') =>
+          match model_msg qtype cd qname v with
+          | MReply _ rc ans _ _ => (rc =? rc') && rrecs_eqb ans ans'
+          | MServfail _ => rc' =? 2
+          | MUpstream _ _ => true      (* a hop left the cache: resolver's business *)
+          end
+      | _, _ => true
+      end
   end.
 
 (* the specification, on observations only:
@@ -150,5 +210,14 @@ Definition spec_case (c : case) : bool :=
       match ow with
       | Some r => bytes_eqb tail (encode_opt r) && (ar1 =? ar0 + 1)
       | None => (match tail with [] => true | _ => false end) && (ar1 =? ar0)
+      end
+  | CaseChase _ _ _ _ _ code_comp wire_reply _ msg_reply =>
+      (* observations only: what the composer builds is what the byte path sent and what the decoded
+         path answered for the same packet on the same history *)
+      match code_comp with
+      | Some (recs, _) =>
+          match wire_reply with Some w => rrecs_eqb recs w | None => true end &&
+          match msg_reply with Some (rc, m) => (rc =? 0) && rrecs_eqb recs m | None => true end
+      | None => true
       end
   end.
